@@ -395,6 +395,30 @@ func c08Faults() []fault {
 	add("batch-three-tables-unknown-table-last", func(r *rand.Rand, t string, p, a val.Item) []adapt.Op {
 		return one(adapt.Op{Kind: adapt.OpBatchWrite, Batch: []adapt.BatchEntry{{Table: t, Put: ixItem(a["h"].Str, a["r"].Str, "x", "1", 90)}, {Table: oth, Put: val.Item{"h": val.Str("o3")}}, {Table: "zzz-nosuchtable", Put: val.Item{"h": val.Str("x")}}}})
 	})
+	// 11c a table whose ONLY secondary index is a local one, created with the table and never changed since: the sort
+	// key attribute of that index (no global index uses it) given with the wrong type - by a new item, by a replacement,
+	// by an update, by a later request of a batch
+	lsiT := "lsi08"
+	lkey := val.Item{"h": val.Str("l1"), "r": val.Str("1")}
+	add("local-index-only-sort-key-type/put-new", func(r *rand.Rand, t string, p, a val.Item) []adapt.Op {
+		return one(adapt.Op{Kind: adapt.OpPut, Table: lsiT, Item: val.Item{"h": val.Str("l2"), "r": val.Str("1"), "lo": val.Num("5"), "w": val.Str("new")}})
+	})
+	add("local-index-only-sort-key-type/put-overwrite", func(r *rand.Rand, t string, p, a val.Item) []adapt.Op {
+		return one(adapt.Op{Kind: adapt.OpPut, Table: lsiT, Item: val.Item{"h": val.Str("l1"), "r": val.Str("1"), "lo": val.Bool(true), "w": val.Str("replaced")}})
+	})
+	add("local-index-only-sort-key-type/update", func(r *rand.Rand, t string, p, a val.Item) []adapt.Op {
+		return one(mon.SetUpdate(lsiT, lkey, "lo", val.Num("5")))
+	})
+	add("local-index-only-sort-key-type/update-multi", func(r *rand.Rand, t string, p, a val.Item) []adapt.Op {
+		return one(adapt.Op{Kind: adapt.OpUpdate, Table: lsiT, Key: lkey, Update: "SET w = :w, lo = :n REMOVE z", Values: val.Item{":w": val.Str("changed"), ":n": val.List(val.Str("x"))}})
+	})
+	add("local-index-only-sort-key-type/update-upsert", func(r *rand.Rand, t string, p, a val.Item) []adapt.Op {
+		return one(mon.SetUpdate(lsiT, val.Item{"h": val.Str("l2"), "r": val.Str("1")}, "lo", val.Num("5")))
+	})
+	add("local-index-only-sort-key-type/batchwrite", func(r *rand.Rand, t string, p, a val.Item) []adapt.Op {
+		return one(adapt.Op{Kind: adapt.OpBatchWrite, Batch: []adapt.BatchEntry{{Table: lsiT, Put: val.Item{"h": val.Str("l3"), "r": val.Str("1"), "lo": val.Str("fine")}}, {Table: lsiT, Del: lkey},
+			{Table: lsiT, Put: val.Item{"h": val.Str("l2"), "r": val.Str("1"), "lo": val.Num("5")}}}})
+	})
 	// 12 UpdateTable whose later change fails
 	add("updatetable-second-change-fails", func(r *rand.Rand, t string, p, a val.Item) []adapt.Op {
 		return one(adapt.Op{Kind: adapt.OpUpdateTable, Table: t, Chg: []adapt.IndexChange{{Create: &adapt.IndexSpec{Name: "gsiNew", Hash: "v2"}}, {Delete: "nosuchindex"}}})
@@ -404,6 +428,13 @@ func c08Faults() []fault {
 	})
 	add("updatetable-delete-two-existing-then-fail", func(r *rand.Rand, t string, p, a val.Item) []adapt.Op {
 		return one(adapt.Op{Kind: adapt.OpUpdateTable, Table: t, Chg: []adapt.IndexChange{{Delete: "gsi2"}, {Delete: "gsi4"}, {Create: &adapt.IndexSpec{Name: "gsiNew", Hash: "v2"}}, {Delete: "nosuchindex"}}})
+	})
+	add("updatetable-create-then-unnamed-delete", func(r *rand.Rand, t string, p, a val.Item) []adapt.Op {
+		// the failing change is one the request structure can express although it names nothing: a Delete without IndexName
+		return one(adapt.Op{Kind: adapt.OpUpdateTable, Table: t, Chg: []adapt.IndexChange{{Create: &adapt.IndexSpec{Name: "gsiNew", Hash: "v2"}}, {DeleteUnnamed: true}}})
+	})
+	add("updatetable-delete-existing-then-unnamed-delete", func(r *rand.Rand, t string, p, a val.Item) []adapt.Op {
+		return one(adapt.Op{Kind: adapt.OpUpdateTable, Table: t, Chg: []adapt.IndexChange{{Delete: "gsi1"}, {DeleteUnnamed: true}}})
 	})
 	add("updatetable-delete-missing-index", func(r *rand.Rand, t string, p, a val.Item) []adapt.Op {
 		return one(adapt.Op{Kind: adapt.OpUpdateTable, Table: t, Chg: []adapt.IndexChange{{Delete: "nosuchindex"}}})
@@ -582,6 +613,14 @@ func c08Faults() []fault {
 		limit(fmt.Sprintf("update-set-nesting-%d", d), func(r *rand.Rand, t string, p val.Item) adapt.Op {
 			return mon.SetUpdate(t, k(p), "deep", deep(d))
 		})
+		limit(fmt.Sprintf("batch-valid-then-nesting-%d", d), func(r *rand.Rand, t string, p val.Item) adapt.Op {
+			it := ixItem("b3", "1", "x", "1", 1)
+			it["deep"] = deep(d)
+			return adapt.Op{Kind: adapt.OpBatchWrite, Batch: []adapt.BatchEntry{{Table: t, Put: ixItem("b2", "1", "x", "1", 1)}, {Table: t, Del: k(p)}, {Table: t, Put: it}}}
+		})
+		limit(fmt.Sprintf("batch-two-tables-nesting-%d", d), func(r *rand.Rand, t string, p val.Item) adapt.Op {
+			return adapt.Op{Kind: adapt.OpBatchWrite, Batch: []adapt.BatchEntry{{Table: t, Put: ixItem("b2", "1", "x", "1", 1)}, {Table: t, Del: k(p)}, {Table: "oth08", Put: val.Item{"h": val.Str("o7"), "deep": deep(d)}}}}
+		})
 	}
 	for _, num := range []string{"123456789012345678901234567890123456789", "1E126", "1E-131", "0.00000000000000000000000000000000000000123456789012345678901234567890123456789"} {
 		num := num
@@ -644,13 +683,16 @@ func (p *c08) RunCase(ctx *runner.Ctx) runner.CaseResult {
 	r := mon.Rng(ctx.Seed, "C08", ctx.Case)
 	spec := ixSpec("tbl08", true)
 	other := mon.SpecHashOnly("oth08")
-	cl, m, ds := freshClient(adapter, spec, other)
+	lsiOnly := adapt.TableSpec{Name: "lsi08", Hash: "h", Range: "r", Billing: "PAY_PER_REQUEST", Indexes: []adapt.IndexSpec{{Name: "lonly", Hash: "h", Range: "lo", Local: true}}}
+	cl, m, ds := freshClient(adapter, spec, other, lsiOnly)
 	if ds != nil {
 		x.viol("setup", "create", ds[0].Detail, spec)
 		return x.r
 	}
 	keys := mon.KeyLog{}
-	hist := []adapt.Op{{Kind: adapt.OpPut, Table: other.Name, Item: val.Item{"h": val.Str("o1"), "z": val.Num("1")}}}
+	hist := []adapt.Op{{Kind: adapt.OpPut, Table: other.Name, Item: val.Item{"h": val.Str("o1"), "z": val.Num("1")}},
+		{Kind: adapt.OpPut, Table: lsiOnly.Name, Item: val.Item{"h": val.Str("l1"), "r": val.Str("1"), "lo": val.Str("x"), "z": val.Num("1")}},
+		{Kind: adapt.OpPut, Table: lsiOnly.Name, Item: val.Item{"h": val.Str("l1"), "r": val.Str("2"), "z": val.Num("2")}}}
 	n := []int{2, 8, 25}[stateNo%3] + r.Intn(4)
 	for i := 0; i < n; i++ {
 		hist = append(hist, ixRandomWrite(r, spec.Name, i))
@@ -684,7 +726,11 @@ func (p *c08) RunCase(ctx *runner.Ctx) runner.CaseResult {
 	for _, h := range []string{"b2", "b3", "b4", "b5"} {
 		keys.Add(spec.Name, val.Item{"h": val.Str(h), "r": val.Str("1")})
 	}
-	tables := []string{spec.Name, other.Name, "brandnew", "nosuchtable"}
+	for _, h := range []string{"l1", "l2", "l3"} {
+		keys.Add(lsiOnly.Name, val.Item{"h": val.Str(h), "r": val.Str("1")})
+	}
+	keys.Add(lsiOnly.Name, val.Item{"h": val.Str("l1"), "r": val.Str("2")})
+	tables := []string{spec.Name, other.Name, lsiOnly.Name, "brandnew", "nosuchtable"}
 	ops := f.mk(r, spec.Name, present, absent)
 	failing := ops[len(ops)-1]
 	before := mon.Snapshot(cl, tables, keys)
